@@ -84,7 +84,7 @@ def host_program(kind, cfg):
 def enum_configs():
     for attempts in (None, 1, 2, 3):
         for delay in (None, 0, 0.5):
-            for excs in (None, ['ErrA'], ['ErrA', 'ErrB']):
+            for excs in (None, ['ErrA'], ['ErrA', 'ErrB'], ['ErrA2']):
                 for use_default in (False, True):
                     for mode in ('gated', 'thread'):
                         yield {'attempts': attempts, 'delay': delay, 'exceptions': excs, 'use_default': use_default,
@@ -97,7 +97,7 @@ class C12(EngineCheck):
     feats = ('fail', 'retry', 'default', 'fatal', 'oneof', 'switch', 'rec', 'generic')
     rule = ('(a) sampled: program with retry settings from the full product (attempts None/1..4, delay None/0/0.5/1/2.5, '
             'exceptions None/subsets, use_default) on nodes anywhere x per-invocation outcome sequences over {ok, ErrA, '
-            'ErrB, ErrC, Fatal} x 4 schedules with other nodes and timers racing; (b) enumerated: for fixed host '
+            'ErrB, ErrC, ErrA2 (a subclass of ErrA), Fatal} x 4 schedules with other nodes and timers racing; (b) enumerated: for fixed host '
             'pipelines (chain, racing sibling timer, one-of candidate, dependency of a losing candidate shared with the next one) EVERY configuration x EVERY outcome sequence up '
             'to length attempts+1 (quick: length <=2 on the chain host); oracle = small-step reference of the '
             'documented policy: number of invocations, identical kwargs on re-invocation, virtual time between a failed '
@@ -116,7 +116,7 @@ class C12(EngineCheck):
             for n in case['program']['nodes']:
                 if (n.get('attempts') or n.get('use_default')) and draw(st.integers(0, 2)) != 0:
                     k = draw(st.integers(1, 4))
-                    outs = [draw(st.sampled_from(['ErrA', 'ErrA', 'ErrB', 'ErrC', 'ok'])) for _ in range(k)]
+                    outs = [draw(st.sampled_from(['ErrA', 'ErrA', 'ErrA2', 'ErrB', 'ErrC', 'ok'])) for _ in range(k)]
                     beh = case['variant']['nodes'].setdefault(n['id'], {})
                     beh['outcomes'] = outs
             return _sanitize(case)
@@ -157,7 +157,7 @@ class C12(EngineCheck):
     def extra(self, tier, seed, stats):
         shard, nshards = getattr(self, 'shard', (0, 1))
         hosts = ('chain', 'cand') if tier == 'quick' else ('chain', 'race', 'oneof', 'cand')
-        alphabet = ('ok', 'ErrA', 'ErrB', 'ErrC', 'Fatal')
+        alphabet = ('ok', 'ErrA', 'ErrA2', 'ErrB', 'ErrC', 'Fatal')
         n = 0
         enumerated = 0
         for host in hosts:
